@@ -139,6 +139,8 @@ def _plan(tier):
                 n = 30
             if pt == RS or (kind == "hb_pasha" and pt == BT):
                 n = 28
+            if kind == "hb_pasha" and pt == RS:
+                n = 38
             out.append((kind, srch, pt, n * k))
     return out
 
